@@ -86,12 +86,13 @@ type Binder struct {
 }
 
 type Clause struct {
-	Kind  string // requires ensures invariant decreases modifies assume
-	E     Expr
-	Text  string
-	Props []string
-	Name  string // optional label
-	Known string // optional known-finding tag
+	Kind     string // requires ensures invariant decreases modifies assume
+	E        Expr
+	Text     string
+	Props    []string
+	Name     string // optional label
+	Known    string // optional known-finding tag
+	Internal bool   // ensures over locals of the body: checked, but not assumed at call sites
 }
 
 type LoopSpec struct {
@@ -117,33 +118,33 @@ type CallSpec struct {
 }
 
 type FuncContract struct {
-	Key      string // e.g. "parseInt", "(*File).AddRetract", "CheckPath$1"
-	Pkg      string // package path, filled by loader
-	File     string
-	Line     int
-	Requires []*Clause
-	Ensures  []*Clause
-	Modifies []string
-	ModAll   bool
-	Pure     bool
-	Mode     string // "int" or "bv64"
-	Props    []string
-	Loops    map[int]*LoopSpec
-	Calls    []*CallSpec
-	Decr     *Clause
-	Trusted  string // non-empty: body not verified, reason (assumption)
-	NoOvf    bool
-	Kind     string // func, iface, extern
-	Params   []Binder // for extern/iface (declared signature)
-	Results  []Binder
-	Allocates bool
+	Key        string // e.g. "parseInt", "(*File).AddRetract", "CheckPath$1"
+	Pkg        string // package path, filled by loader
+	File       string
+	Line       int
+	Requires   []*Clause
+	Ensures    []*Clause
+	Modifies   []string
+	ModAll     bool
+	Pure       bool
+	Mode       string // "int" or "bv64"
+	Props      []string
+	Loops      map[int]*LoopSpec
+	Calls      []*CallSpec
+	Decr       *Clause
+	Trusted    string // non-empty: body not verified, reason (assumption)
+	NoOvf      bool
+	Kind       string   // func, iface, extern
+	Params     []Binder // for extern/iface (declared signature)
+	Results    []Binder
+	Allocates  bool
 	Terminates bool
-	Uses     []string // lemmas to include
-	PanicsIf []*Clause
-	Opaque   bool
-	Lets     []*LetSpec
+	Uses       []string // lemmas to include
+	PanicsIf   []*Clause
+	Opaque     bool
+	Lets       []*LetSpec
 	FuncParams map[string]*FuncContract
-	MathInts string // non-empty: machine arithmetic treated as mathematical in this function (assumption, with reason)
+	MathInts   string // non-empty: machine arithmetic treated as mathematical in this function (assumption, with reason)
 }
 
 type SpecFunc struct {
@@ -172,7 +173,7 @@ type Lemma struct {
 	Pkg      string
 	Props    []string
 	Uses     []string
-	Axiom    bool   // assumed, with reason
+	Axiom    bool // assumed, with reason
 	Reason   string
 	Triggers [][]Expr
 	Text     string
@@ -873,7 +874,10 @@ func (p *parser) parseClauseExpr(kind string) (*Clause, error) {
 		p.adv()
 		for !p.isOp("]") {
 			s := p.adv().s
-			if strings.HasPrefix(s, "known") {
+			if s == "internal" {
+				// a postcondition about the function's own locals: proved on the body, not offered to callers
+				c.Internal = true
+			} else if strings.HasPrefix(s, "known") {
 				// known=F-xxx  -> tokens: known = F - xxx ; simplified: known:ID as  known ID
 				c.Known = p.adv().s
 			} else {
